@@ -21,10 +21,22 @@ Definition P_of (c : cfg) : Z := 10 ^ c_off c.
 Lemma fit128_some z v : fit128 z = Some v -> v = z /\ MIN128 <= z <= MAX128.
 Proof. destruct (fit128_case z) as [[-> H]|[-> H]]; intros E; inversion E; subst; split; auto. Qed.
 
-Lemma to_shares_spec c s a rd : MIN128 <= a <= MAX128 ->
+(* the constructor's two instance entries are in place: the asset address is the asset token's and the stored
+   decimals offset is the constructor argument *)
+Definition Stored (c : cfg) (s : state) : Prop := v_asset s = Some ASSET_ADDR /\ v_off s = Some (c_off c).
+
+Lemma stored_client c s : Stored c s -> asset_client s = Ok tt.
+Proof. intros [Ha _]. unfold asset_client, query_asset. rewrite Ha. cbn. reflexivity. Qed.
+Lemma stored_off c s : Stored c s -> get_decimals_offset s = c_off c.
+Proof. intros [_ Ho]. unfold get_decimals_offset. rewrite Ho. reflexivity. Qed.
+Lemma stored_total_assets c s : Stored c s -> total_assets_r s = Ok (total_assets s).
+Proof. intros H. unfold total_assets_r. rewrite (stored_client c s H). reflexivity. Qed.
+
+Lemma to_shares_spec c s a rd : Stored c s -> MIN128 <= a <= MAX128 ->
   to_shares c s a rd = spec_conv (P_of c) a (total_supply s + P_of c) (total_assets s + 1) rd.
 Proof.
-  intros Ha. unfold to_shares, spec_conv, pow10, P_of.
+  intros Hst Ha. unfold to_shares, spec_conv, pow10, P_of.
+  rewrite (stored_off c s Hst), (stored_total_assets c s Hst).
   destruct (a <? 0); [reflexivity|]. destruct (a =? 0); [reflexivity|].
   unfold fit128 at 1. destruct (in_i128 (10 ^ c_off c)) eqn:EP; cbn [of_option bind andb]; [|reflexivity].
   unfold checked_add, fit128 at 1.
@@ -36,11 +48,12 @@ Proof.
   unfold fit128. destruct (in_i128 (exact rd _ _)); reflexivity.
 Qed.
 
-Lemma to_assets_spec c s x rd : MIN128 <= x <= MAX128 ->
+Lemma to_assets_spec c s x rd : Stored c s -> MIN128 <= x <= MAX128 ->
   to_assets c s x rd = spec_conv (P_of c) x (total_assets s + 1) (total_supply s + P_of c) rd.
 Proof.
-  intros Hx. unfold to_assets, spec_conv, pow10, P_of.
-  destruct (x <? 0); [reflexivity|]. destruct (x =? 0); [reflexivity|].
+  intros Hst Hx. unfold to_assets, spec_conv, pow10, P_of.
+  rewrite (stored_off c s Hst), (stored_total_assets c s Hst).
+  destruct (x <? 0); [reflexivity|]. destruct (x =? 0); [reflexivity|]. cbn [bind].
   unfold checked_add, fit128 at 1.
   destruct (in_i128 (total_assets s + 1)) eqn:EY; cbn [of_option bind andb];
     [|rewrite andb_false_r; reflexivity].
